@@ -1,11 +1,4 @@
 HOOK_COMMITS = ["ff0d111", "d7fcc9b"]
 
+# reasons for properties that are not claimed
 NOT_APPLICABLE = {}
-
-TEXT = {
-    "C12": {
-        "level": "Machine-checked Lean 4 theorems about an executable model of the protobuf wire codec, the typed conversions of types/serialization.go and the three hashes: round trip for every value, canonical re-encoding for every byte string the decoder accepts, commitment independent of metadata, golden bytes/hashes by kernel evaluation against facts regenerated from /repo on every run (and pinned copies). The model is tied to the code by differential execution on typed values and mutated byte strings through every decoder.",
-        "note": "Trusted: Lean kernel; factgen; the correspondence harness; protobuf-go, gob, libp2p key parsing and Go's SHA-256 are modelled (the model is compared with them on every run), not verified. Decoder totality ('never panics') is a theorem about the Lean decoder and an exploration (recover-guarded stream) for protobuf-go.",
-        "technique": "Lean 4 proof (round-trip / canonicity theorems, kernel-evaluated golden vectors) + differential correspondence with the real codec",
-    },
-}
